@@ -7,9 +7,11 @@ props = [json.loads(l)["id"] for l in open(os.path.join(ROOT, "properties.jsonl"
 na_file = os.path.join(ROOT, "manifest.d", "not_applicable.json")
 na_reasons = json.load(open(na_file)) if os.path.exists(na_file) else {}
 checks = []
+ready_file = os.path.join(ROOT, "manifest.d", "READY")   # one property id per line: checks the coordinator has accepted
+ready = set(open(ready_file).read().split()) if os.path.exists(ready_file) else set()
 for pid in props:
     f = os.path.join(ROOT, "manifest.d", pid + ".json")
-    if not os.path.exists(f):
+    if not os.path.exists(f) or pid not in ready:
         continue
     c = json.load(open(f))
     c.setdefault("quick_cmd", "./check %s --tier quick" % pid)
